@@ -101,6 +101,22 @@ CLAIMS = {
          "not decided; 'a failing apply publishes nothing' is C08.O3.", "DESIGN.md section 4 C20"),
 }
 
+# sentences appended to the level text (rules added after the table above was written)
+ADDENDA = {
+ "C01": " The group template is evaluated with the tag index used only as an index (a lone ${tag} on token 0 is a tag, not a string part).",
+ "C02": " Every worker is started before the state from which callbacks are accepted is published.",
+ "C05": " The pattern selected is the matcher's: literal, placeholder, wildcard in that order with a failed recursive match falling through (C06.R1 obligations).",
+ "C07": " The token-reset subject is tested non-empty in addition to the path validator, which accepts the empty path.",
+ "C08": " Every resource constructed with a routed handler is given the listeners of the same match.",
+ "C09": " A subscription error is tested or returned before the next subscription is made (typestate over subscribe and its helpers).",
+ "C12": " A mutation never decides from a stale cached before-value (C11.K2 obligations).",
+ "C13": " In the index scan offset, limit and the result only count entries the key filter accepted (per-iteration typestate).",
+ "C14": " Init announces as created only what it wrote (C12.I2 obligations).",
+ "C16": " The lazily defaulted ownership lists are exempt only when the defaulting provably closes their ==nil guard (non-nil on every path), so that later ResetAll calls only read.",
+ "C18": " Envelope members the client does not declare (meta) are tolerated: no strict decoder in the client package.",
+ "C20": " No slice that may hold a field of the handler is appended to, copied into or stored into.",
+}
+
 NA = {}
 
 def main():
@@ -117,7 +133,7 @@ def main():
                 "evidence_file": "/verif/evidence/%s.json" % pid,
                 "replay_cmd_template": "cat {path}",
                 "engine": "resverif",
-                "level_claimed": {"category": "other", "text": text, "design_ref": ref},
+                "level_claimed": {"category": "other", "text": text + ADDENDA.get(pid, ""), "design_ref": ref},
                 "level_note": NOTE_COMMON,
                 "technique": "static analysis: " + tech,
             })
